@@ -180,6 +180,15 @@ type Req struct {
 type Case struct {
 	Up   Upstream `json:"up"`
 	Reqs []Req    `json:"reqs"`
+	// V6: the client reaches the proxy over the IPv6 loopback address
+	V6 bool `json:"v6,omitempty"`
+}
+
+func (c *Case) clientIP() string {
+	if c.V6 {
+		return "::1"
+	}
+	return "127.0.0.1"
 }
 
 func casketfile(u Upstream) string {
@@ -396,6 +405,14 @@ func runCase(c *Case) (nontrivial int, err error) {
 	}
 	defer srv.Stop(inst)
 	addr := srv.Loopback(srv.Addrs(inst)[0])
+	if c.V6 {
+		addr = net.JoinHostPort("::1", srv.PortOf(srv.Addrs(inst)[0]))
+		if probe, e := net.Dial("tcp", addr); e != nil {
+			return 0, fmt.Errorf("HARNESS: no IPv6 loopback here: %v", e)
+		} else {
+			probe.Close()
+		}
+	}
 	for i, r := range c.Reqs {
 		id := fmt.Sprintf("c04-%d", atomic.AddInt64(&seq, 1))
 		resp, e := srv.Once(addr, r.Method, rawRequest(r, id))
@@ -483,13 +500,13 @@ func runCase(c *Case) (nontrivial int, err error) {
 		}
 		// X-Forwarded-For: prior values folded + client address
 		prior := exp["X-Forwarded-For"]
-		xff := "127.0.0.1"
+		xff := c.clientIP()
 		if len(prior) > 0 {
-			xff = strings.Join(prior, ", ") + ", 127.0.0.1"
+			xff = strings.Join(prior, ", ") + ", " + c.clientIP()
 		}
 		exp["X-Forwarded-For"] = []string{xff}
 		if c.Up.Transparent {
-			exp["X-Real-Ip"] = []string{"127.0.0.1"}
+			exp["X-Real-Ip"] = []string{c.clientIP()}
 			exp["X-Forwarded-Proto"] = []string{"http"}
 			exp["X-Forwarded-Port"] = []string{"80"}
 		}
@@ -687,7 +704,7 @@ func genScript(t *rapid.T, lb string) BackendScript {
 var targets = []string{"/api/x", "/api/a/b/c", "/api/a%2Fb", "/api/x%20y", "/api/a+b", "/api/%C3%A9", "/api/", "/api", "/api/x?q=1&r=a%20b", "/api/x?", "/other/x", "/api/x//y", "/api/..%2Fz", "/api/x?a=%2F&b=+"}
 
 func genCase(t *rapid.T) *Case {
-	c := &Case{}
+	c := &Case{V6: rapid.IntRange(0, 4).Draw(t, "v6") == 0}
 	u := Upstream{From: rapid.SampledFrom([]string{"/", "/api"}).Draw(t, "from")}
 	u.Base = rapid.SampledFrom([]string{"", "", "/base", "/base/"}).Draw(t, "base")
 	if u.From == "/api" && rapid.Bool().Draw(t, "without") {
